@@ -132,6 +132,9 @@ Proof.
   intro H. exists sw. split; [reflexivity|]. apply covers_total. exact H.
 Qed.
 
+Lemma total_on_chk id univ excl : chk id univ excl = true -> total_on id univ excl.
+Proof. exact (total_on_intro id univ excl). Qed.
+
 (* found switches are members of the generated table with that id *)
 Lemma find_switch_sound id sw : find_switch id = Some sw -> In sw gen_switches /\ sw_id sw = id.
 Proof.
